@@ -77,3 +77,6 @@ mk("m-c02-mixed-key", {"C02": ["C02.W|multiply_bits_by_public_integers|roles|"]}
 mk("m-c02-mixed-forward", {"C02": ["C02.W|multiply_bits_by_public_integers|roles|sender"]}, [(B + "mpc/mpc_arithmetic.rs",
    "        .add_annotation(NodeAnnotation::Send(party_r_id, party_h_id))?;", "        .add_annotation(NodeAnnotation::Send(party_h_id, party_r_id))?;")],
    "the OT result is 'sent' by the helper, which never received it")
+mk("m-c03-ot-rb-to-sender", {"C03": ["C03.H|ObliviousTransfer|roles|send"]}, [(B + "mpc/utils.rs",
+   "            .add_annotation(NodeAnnotation::Send(helper_id, self.receiver_id))?;", "            .add_annotation(NodeAnnotation::Send(helper_id, self.sender_id))?;")],
+   "OT: the helper's selected mask r_b goes to the sender, who holds the PRF key and so learns the selection bit b")
